@@ -13,20 +13,21 @@ from mc.ref import abbr_model as M
 ID = 'C01'
 
 CONFIGS = [(style, fmt) for style in ('html', 'xhtml', 'xml') for fmt in (True, False)]
-INLINE = ['em', 'span', 'q', 'b', 'a']
+INLINE = ['em', 'span', 'q', 'b', 'a', 'select']     # select is in the documented table AND inline: the table wins
 # names for the parent of an implicit element: the documented table, inline names (in the passed list), block names,
 # and a name that HTML calls inline but that is NOT in the passed inlineElements list (-> div)
 PARENTS = ['ul', 'ol', 'table', 'tbody', 'thead', 'tfoot', 'tr', 'select', 'optgroup', 'p', 'em', 'span', 'q', 'b',
            'div', 'section', 'strong']
-PARENTS_DEFAULT_INLINE = ['em', 'span', 'strong', 'ul', 'div', 'p']   # pass with the library's default inlineElements
+# pass with the library's default inlineElements (which lists select, like every Emmet document does): the table still wins
+PARENTS_DEFAULT_INLINE = ['em', 'span', 'strong', 'ul', 'ol', 'div', 'p', 'select', 'optgroup', 'table', 'tr']
 
 BOUNDS = {
     # full: (n, groups, reps) with every kind assignment (3^n) under all 6 configurations
     # dev1: kind assignments with <= 1 non-named element, 2 configurations
     # named: named elements only, 1 configuration
     # implicit: implicit-name sweep; compose: corpus bound for the composition sweep
-    'quick': dict(full=[(1, 1, 2), (2, 1, 2), (3, 1, 2)], dev1=[(4, 1, 1)], named=[(4, 1, 2), (5, 0, 1)],
-                  implicit=[(1, 1, 1), (2, 1, 1), (3, 1, 1)], compose=(2, 1, 1)),
+    'quick': dict(full=[(1, 1, 2), (2, 1, 2), (3, 1, 1)], dev1=[(3, 1, 2), (4, 0, 1)], named=[(4, 1, 1), (5, 0, 1)],
+                  implicit=[(1, 1, 1), (2, 1, 1), (3, 1, 0)], compose=(2, 1, 1)),
     'thorough': dict(full=[(1, 2, 2), (2, 2, 2), (3, 2, 2), (4, 1, 2)], dev1=[(4, 2, 2), (5, 1, 1)],
                      named=[(5, 1, 2), (6, 1, 1)], implicit=[(1, 1, 1), (2, 1, 1), (3, 1, 1), (4, 1, 1)],
                      compose=(3, 1, 1)),
@@ -39,7 +40,7 @@ def describe(tier):
     return dict(
         rule='E2: all operator skeletons seq := item (op item)*, op in {>,+,^,^^}, item := elem rep? | (seq) rep?, '
              'rep in {*2,*3} with (elements, group nesting, repeaters) bounds: full kind product (named / named-self-closed '
-             '/ implicit per element) x 6 configurations (html|xhtml|xml x format on|off) for %s; <=1 non-named element x 2 '
+             '/ implicit / name ending in `$` per element) x 6 configurations (html|xhtml|xml x format on|off) for %s; <=1 non-named element x 2 '
              'configurations for %s; named only for %s; implicit-name sweep (parent of every implicit element ranging over '
              '%d names, inlineElements passed explicitly, plus %d names under the default list) for %s; composition sweep over '
              'all ordered pairs of the corpus %s: expand((A)+(B)) = expand(A)+expand(B), expand(x>(A)) = <x>expand(A)</x>, '
@@ -75,13 +76,14 @@ def kind_assignments(n, mode):
     elif mode == 'dev1':
         yield base
         for i in range(n):
-            for alt in ('x%d/' % i, '.c%d' % i):
+            for alt in ('x%d/' % i, '.c%d' % i, 'x%d$' % i):
                 l = list(base)
                 l[i] = alt
                 yield l
     else:
-        for combo in itertools.product(range(3), repeat=n):
-            yield [('x%d' % i, 'x%d/' % i, '.c%d' % i)[c] for i, c in enumerate(combo)]
+        # named, self-closed, implicit, and a name that ends in a numbering `$` (directly followed by the next operator)
+        for combo in itertools.product(range(4), repeat=n):
+            yield [('x%d' % i, 'x%d/' % i, '.c%d' % i, 'x%d$' % i)[c] for i, c in enumerate(combo)]
 
 
 def configs_for(mode):
@@ -192,7 +194,7 @@ def run_implicit(seq, n, ctx):
                     ctx.transitions += 1
                     ctx.evals += 1
                     ctx.validated += 1
-                    ref_inline = inline if inline is not None else ['em', 'span', 'strong']
+                    ref_inline = inline if inline is not None else ['em', 'span', 'strong', 'select']
                     abbr = M.render(seq, l)
                     tree = M.unroll(M.denote(seq, l))
                     exp = M.events(tree, 'html', ref_inline)
@@ -221,7 +223,7 @@ def corpus(bound):
             out.append(M.render(seq, base))
             if m <= 2:
                 for i in range(m):
-                    for alt in ('x%d/' % i, '.c%d' % i):
+                    for alt in ('x%d/' % i, '.c%d' % i):       # no `$` names here: (A)*2 renumbers them
                         l = list(base)
                         l[i] = alt
                         out.append(M.render(seq, l))
